@@ -2,7 +2,10 @@
 
 package swap
 
-import "github.com/elementsproject/peerswap/zzverif"
+import (
+	"github.com/elementsproject/peerswap/messages"
+	"github.com/elementsproject/peerswap/zzverif"
+)
 
 // C16: well-founded progress.  vRank is a progress measure on the states of each role; for every
 // resting state the harness applies the stimuli the fairness assumptions guarantee (armed timeout,
@@ -199,4 +202,51 @@ func H_C16_claimingStatesFinishDespiteTransientFailures() {
 		zzverif.Assert(vIsTerminal(post), "C16.claim_attempts_end_in_a_terminal_state")
 		zzverif.Assert(len(w.spends) == 1, "C16.exactly_one_claim_goes_out")
 	}
+}
+
+// H_C16_rejectedMessageLeavesTheSwapStorable: a message of a type the state accepts but with content that
+// fails its validation (a coop_close whose key is not hex, an opening_tx_broadcasted whose txid is not hex)
+// is rejected - and it leaves nothing behind in the swap that the next record would carry: the stimulus that
+// is guaranteed to follow (CSV maturity for the maker, the timeout / cancel for the taker) is handled, its
+// record is one the store can decode again (interface-typed member empty, asserted in the store stub), and
+// the swap data is otherwise what it was.
+// Bounds: maker waiting for the claim payment (both directions) and swap-out taker waiting for the opening
+// transaction message; one malformed message; no injected faults.
+func H_C16_rejectedMessageLeavesTheSwapStorable() {
+	type node struct {
+		role int
+		st   StateType
+		next int
+	}
+	nodes := []node{
+		{rInSender, State_SwapInSender_AwaitClaimPayment, stCsvPassed},
+		{rOutReceiver, State_SwapOutReceiver_AwaitClaimInvoicePayment, stCsvPassed},
+		{rOutSender, State_SwapOutSender_AwaitTxBroadcastedMessage, stMsgCancel},
+		{rInReceiver, State_SwapInReceiver_AwaitTxBroadcastedMessage, stMsgCancel},
+	}
+	n := nodes[zzverif.Choice("node", len(nodes))]
+	sc := vBuild(n.role, n.st, false, 7)
+	w := sc.env.w
+	w.maxFaults = 0
+	w.maxPayAttempts = 1
+	w.narrow = sc.sm.Data
+	zzverif.Unwind(30)
+	id := sc.sm.SwapId
+	if n.role == rInSender || n.role == rOutReceiver {
+		m := &CoopCloseMessage{SwapId: id, Message: "bye", Privkey: "not-hex"}
+		_ = sc.svc.OnMessageReceived(vPeer, vHexType(messages.MESSAGETYPE_COOPCLOSE), vMarshal(m))
+	} else {
+		m := &OpeningTxBroadcastedMessage{SwapId: id, Payreq: "lnbc1", TxId: "not-hex", ScriptOut: 0}
+		_ = sc.svc.OnMessageReceived(vPeer, vHexType(messages.MESSAGETYPE_OPENINGTXBROADCASTED), vMarshal(m))
+	}
+	zzverif.Reach("c16.malformed_message_handled")
+	if cur, err := sc.svc.GetActiveSwap(sc.id); err == nil {
+		zzverif.Assert(cur.Data.LastMessage == nil, "C16.rejected_message_is_not_kept_in_the_swap")
+	}
+	persists := w.persists
+	sc.vApply(n.next)
+	if w.persists > persists {
+		zzverif.Reach("c16.record_written_after_rejected_message")
+	}
+	zzverif.Assert(sc.vCurrent() != n.st || w.persists > persists, "C16.swap_moves_on_after_a_rejected_message")
 }
